@@ -62,6 +62,11 @@ class Desc:
         # the text Bob will execute, minus the source annotations (_BOB_SOURCES[..]='Recipe x') that only
         # serve error messages
         script = "\n".join(l for l in step.getScript().split("\n") if not l.startswith("_BOB_SOURCES[$LINENO]="))
+        # files included with $<<file>> are unpacked into temporary files whose shell variable is named after the recipe
+        # (_<base><n>): the name is no part of what is executed
+        names = re.findall(r"^(_[A-Za-z0-9_]+)=\$\(mktemp\)$", script, re.M)
+        for i, nme in sorted(enumerate(names), key=lambda t: -len(t[1])):
+            script = script.replace(nme, "_INCLUDED%d_" % i)
         if kind == "src":
             # SCMs are described symbolically, from the model (not from Bob's digest script)
             r = body_of(self.model, pkg)
@@ -82,8 +87,11 @@ class Desc:
         self.comp[d] = (comp, script, env)
         return d
 
-def collect(project_dir, model):
-    """-> list of (kind, stack, recipe, desc, vid, comp) for all valid steps, or None if Bob rejects the project"""
+def collect(project_dir, model, inconsistent=None):
+    """-> list of (kind, stack, recipe, desc, vid, comp) for all valid steps, or None if Bob rejects the project;
+    steps whose id is not the digest of their own reported inputs are appended to `inconsistent` instead"""
+    if inconsistent is None:
+        inconsistent = []
     from bob.errors import BobError
     with pkgdump.in_dir(project_dir):
         try:
@@ -93,15 +101,28 @@ def collect(project_dir, model):
             return None
         D = Desc(model)
         out = []
+        import asyncio
+        from bob.cmds.build.build import ExecutableStep, LazyIR
+        loop = asyncio.new_event_loop()
+        async def vids(steps):
+            return [s.getVariantId() for s in steps]
         for stack, pkg, via in pkgdump.walk(root, 1500):
             if not stack:
                 continue
             for step in (pkg.getCheckoutStep(), pkg.getBuildStep(), pkg.getPackageStep()):
                 if step.isValid():
+                    # Is the reported id the digest of the arguments and tools that the very same step reports?  Below a
+                    # package that was merged with an identical one (listed finding) Bob shows the first visitor's sub-tree
+                    # ids next to the tools of the current context: such steps are reported on their own, not compared.
+                    own = loop.run_until_complete(ExecutableStep.fromStep(step, LazyIR).getDigestCoro(vids))
+                    if own != step.getVariantId():
+                        inconsistent.append(("/".join(stack), step.getLabel(), step.getVariantId().hex(), own.hex()))
+                        continue
                     d = D.of(step)
                     deps = [("/".join(a.getPackage().getStack()), a.getLabel()) for a in step.getArguments() if a.isValid()] + \
                            [("/".join(t.getStep().getPackage().getStack()), t.getStep().getLabel()) for t in step.getTools().values()]
                     out.append((step.getLabel(), "/".join(stack), pkg.getRecipe().getName(), d, step.getVariantId().hex(), D.comp[d], deps))
+        loop.close()
         return out
 
 def fin_count(model, recipe_name, kind):
@@ -151,10 +172,16 @@ def run_case(ctx, case):
             d = os.path.join(base, "p%d" % vi)
             os.makedirs(d)
             projgen.render(m, d)
-            steps = collect(d, m)
+            odd = []
+            steps = collect(d, m, odd)
             if steps is None:
                 labels.add("variant-rejected")
                 continue
+            for (ostack, olabel, ovid_, own_) in odd[:1]:
+                ctx.fail("step-id-inconsistent-with-own-inputs", "%s: %s step of %s has Variant-Id %s but the digest over the arguments and "
+                         "tools it reports is %s (%d such steps)" % (vname, olabel, ostack, ovid_, own_, len(odd)), case)
+            if odd:
+                labels.add("merged-package-subtree")
             ids = {(k, s): v for k, s, r, dsc, v, c, dp in steps}
             if vname == "original":
                 orig_ids = ids
@@ -251,4 +278,6 @@ def _f_finalize(sig, case, detail):
         fa, fb = p.get("frags_a"), p.get("frags_b")
         return p.get("differ") == ["script"] and bool(fa) and sorted(fa) == sorted(fb) and fa != fb
     return sig == "same-execution-different-id"
-FINDINGS = {"C02-finalize-order-not-in-digest": _f_finalize}
+FINDINGS = {"C02-finalize-order-not-in-digest": _f_finalize,
+            # same root cause as C03-merged-package-keeps-first-visitors-subtree
+            "C02-merged-package-subtree-inconsistent": lambda sig, case, detail="": sig == "step-id-inconsistent-with-own-inputs"}
